@@ -6,7 +6,7 @@ import os
 
 from . import arraysx, c03x, common, tlc
 
-INV = "INVARIANT RowsAndColumnsSumToTotal\nINVARIANT IndexInRange\nINVARIANT Emit\n"
+INV = "INVARIANT RowsAndColumnsSumToTotal\nINVARIANT IndexInRange\nINVARIANT BroadcastSound\nINVARIANT Emit\n"
 
 
 def gen_part(part):
@@ -87,23 +87,34 @@ def check_c03(tier):
     t = "quick" if tier == "quick" else "full"
     cases, stats = tlc.gen_cases(t)
     res = c03x.replay(cases, full=(tier == "thorough"))
+    # broadcasting of two operands of different shapes / list structures (spec/Arrays.tla, Part broadcast)
+    bitems, bstats = gen_part("broadcast")
+    bres = arraysx.replay("broadcast", bitems, "all" if tier == "thorough" else "sample")
     v = common.Verdicts("C03")
     v.extend(res["records"])
+    v.extend(bres["records"])
     nviol, nknown = v.finish()
     if res["calls"] < 500 or res["groups"] < 50:
         raise RuntimeError("vacuous run")
     ops = sorted({c["op"] for c in cases} - c03x.SKIP_OPS)
-    cov = {"states": stats["distinct"], "transitions": stats["generated"], "traces_validated_against_impl": res["groups"],
-           "samples": [cases[0], cases[len(cases) // 2]], "operations": ops, "array_calls": res["calls"],
+    cov = {"states": stats["distinct"] + bstats["distinct"], "transitions": stats["generated"] + bstats["generated"],
+           "traces_validated_against_impl": res["groups"] + len(bitems),
+           "samples": [cases[0], bitems[len(bitems) // 2]["case"]], "operations": ops, "array_calls": res["calls"] + bres["calls"],
+           "broadcast_states": len(bitems), "broadcast_calls": bres["calls"],
            "elements_compared": res["elements"], "layouts": c03x.LAYOUTS, "second_operand_forms": c03x.B_FORMS,
            "evaluations": res["calls"], "distinct_nontrivial": res["groups"],
            "rule": ("the one-call cases enumerated by TLC from spec/Cases.tla are grouped by operation (up to 40 operand tuples per group); each group "
                     "is evaluated as NumPy 1-D / 2-D arrays and Awkward flat / jagged / option-typed arrays in sampled coordinate-system pairings and "
                     "flavors, scalar parameters as arrays of the same layout or as scalars, the second vector operand as an array, a single object, "
                     "an Awkward record or a NumPy array against an Awkward one; every element of the result must equal the object-backend result on "
-                    "the identical float64 inputs (1e-12 relative) and the shape / list lengths / missing positions must be the operand's"),
-           "exhaustive": False, "checker_cmd": "tlc2.TLC Cases.tla; harness/vverif/c03x.py",
-           "trusted_base": ["TLC 1.8", "spec/Cases.tla", "harness/vverif/c03x.py"]}
+                    "the identical float64 inputs (1e-12 relative) and the shape / list lengths / missing positions must be the operand's; "
+                    "operator and ufunc spellings (+, -, *, /, @, ==, !=, abs, **, numpy.add ... numpy.power) in both flavors; plus the states of "
+                    "spec/Arrays.tla (Part broadcast, invariant BroadcastSound): pairs of NumPy shapes (right-aligned, extent 1 stretches) and "
+                    "variable-length Awkward lists against flat / equally structured operands with the operand positions each result element "
+                    "must be computed from, or the requirement that the pairing is refused - executed for vector x vector and vector x "
+                    "parameter-array operations"),
+           "exhaustive": False, "checker_cmd": "tlc2.TLC Cases.tla; tlc2.TLC Arrays.tla (Part = broadcast); harness/vverif/c03x.py, arraysx.py",
+           "trusted_base": ["TLC 1.8", "spec/Cases.tla", "spec/Arrays.tla", "harness/vverif/c03x.py", "harness/vverif/arraysx.py"]}
     return {"level": "model_checking", "coverage": cov, "violations": nviol, "known": nknown,
             "assumptions": ["the object backend is the reference (its values are checked against the specification by C01/C02)"],
             "summary": f"{res['groups']} operation groups, {res['calls']} array calls, {res['elements']} elements compared"}
